@@ -72,7 +72,7 @@ def getRelevantEvents(
         event_alias.end_time_jd > julian_date_lb,
     )
     if scope_instance_id is not None:
-        query.filter(event_alias.scope_instance_id == scope_instance_id)
+        query = query.filter(event_alias.scope_instance_id == scope_instance_id)
     return database.getData(query)
 
 
